@@ -144,7 +144,10 @@ class _Result:
         self.fn, self.args = fn, args
 
     def get(self):
-        return self.fn(*self.args)
+        # the arguments reach a worker process as a pickled copy: what the task does to them stays there
+        import copy
+
+        return self.fn(*copy.deepcopy(self.args))
 
 
 class _InProcessPool:
